@@ -23,9 +23,19 @@ if grep -q "^ok" $res.demo_without; then echo "demo passes without the change" |
 git -C /repo worktree remove --force $wt
 rm -f $res.suite $res.demo_with $res.demo_without
 # run the check against the change
+if [ -n "${SEEDEVAL_WT:-}" ]; then
+  # another check is using /repo: evaluate against a scratch worktree instead
+  wt2=/tmp/svr_$id
+  git -C /repo worktree remove --force $wt2 2>/dev/null
+  git -C /repo worktree add -q --detach $wt2 HEAD
+  ( cd $wt2 && git apply $dst/patch.diff ) || { echo "cannot apply"; exit 1; }
+  ( cd /verif && VERIF_REPO=$wt2 timeout 3000 ./check $prop $tier > $dst/check_$tier.txt 2>&1; echo "check exit $?" >> $dst/check_$tier.txt )
+  git -C /repo worktree remove --force $wt2
+else
 git -C /repo apply $dst/patch.diff || { echo "cannot apply to /repo"; exit 1; }
 ( cd /verif && timeout 3000 ./check $prop $tier > $dst/check_$tier.txt 2>&1; echo "check exit $?" >> $dst/check_$tier.txt )
 git -C /repo checkout -- .
+fi
 tail -1 $dst/check_$tier.txt | tee -a $res
 grep -c "^VIOLATION" $dst/check_$tier.txt | sed 's/^/VIOLATION lines: /' | tee -a $res
 grep "^VIOLATION\|^ENGINE-MISMATCH\|^INCONCLUSIVE" $dst/check_$tier.txt | cut -c1-260 | sort -u | head -5
